@@ -10,6 +10,7 @@ Part B (restructuring) lives in c19_restructure.py and is called from run().
 import ast
 import json
 import os
+import re
 import shutil
 import tempfile
 import textwrap
@@ -217,6 +218,52 @@ class Offsets:
 WNAMES = ["a", "x", "w", "?v", "n1", "?a"]
 
 
+def leaves_of(stmt):
+    return [n for n in ast.walk(stmt) if isinstance(n, (ast.Name, ast.Constant)) and hasattr(n, "lineno")]
+
+
+def shape(stmt):
+    """dump with Name / Constant leaves blanked"""
+    def go(n):
+        if isinstance(n, (ast.Name, ast.Constant)):
+            return "_"
+        if isinstance(n, ast.AST):
+            return (type(n).__name__,) + tuple(go(getattr(n, f)) for f in n._fields
+                                               if hasattr(n, f) and not isinstance(getattr(n, f), ast.expr_context))
+        if isinstance(n, list):
+            return tuple(go(x) for x in n)
+        return repr(n)
+    return go(stmt)
+
+
+def find_runs(stmt_lists):
+    """(list, a, b): maximal runs lst[a:b] of >= 3 consecutive simple statements of one shape"""
+    runs = []
+    for lst in stmt_lists:
+        a = 0
+        while a < len(lst):
+            b = a + 1
+            if not hasattr(lst[a], "body"):
+                sh = shape(lst[a])
+                while b < len(lst) and not hasattr(lst[b], "body") and shape(lst[b]) == sh:
+                    b += 1
+            if b - a >= 3:
+                runs.append((lst, a, b))
+            a = b
+    return runs
+
+
+def differing_leaves(run, window):
+    """the leaves of the window's statements at the positions where the statements of the run differ"""
+    cols = list(zip(*[leaves_of(s) for s in run]))
+    differing = [j for j, col in enumerate(cols) if len({dump(x) for x in col}) > 1]
+    out = []
+    for s in window:
+        lv = leaves_of(s)
+        out.extend(lv[j] for j in differing if j < len(lv))
+    return out
+
+
 def derive_pattern(rng, src, tree):
     """Returns dict(user=pattern with ${..}, model=pattern with reserved names, exact=[..], kind=..) or None.
     `tree` is a CPython parse of src (positions used; ASCII sources so columns are offsets)."""
@@ -232,10 +279,20 @@ def derive_pattern(rng, src, tree):
             exprs.append(n)
     if not exprs and not stmt_lists:
         return None
+    run_leaves = None
     if stmt_lists and (not exprs or rng.random() < 0.38):
-        lst = rng.choice(stmt_lists)
-        k = min(len(lst), rng.choice([1, 1, 1, 2, 2, 3]))
-        i = rng.randint(0, len(lst) - k)
+        runs = find_runs(stmt_lists)
+        if runs and rng.random() < 0.55:
+            # a 2- or 3-statement window inside a run of unifiable statements; the leaves in which the
+            # statements of the run differ become wildcards
+            lst, a, b = rng.choice(runs)
+            k = min(b - a, rng.choice([2, 2, 3]))
+            i = rng.randint(a, b - k)
+            run_leaves = differing_leaves(lst[a:b], lst[i:i + k])
+        else:
+            lst = rng.choice(stmt_lists)
+            k = min(len(lst), rng.choice([1, 1, 1, 2, 2, 3]))
+            i = rng.randint(0, len(lst) - k)
         roots = lst[i:i + k]
         first_line = min([roots[0].lineno] + [d.lineno for d in getattr(roots[0], "decorator_list", [])])
         seg_start = off.starts[first_line - 1]
@@ -259,6 +316,9 @@ def derive_pattern(rng, src, tree):
     rng.shuffle(inner)
     chosen = []
     want = rng.choice([0, 1, 1, 2, 2, 3, 4])
+    if run_leaves is not None:
+        inner = run_leaves
+        want = len(run_leaves)
     for n in inner:
         if len(chosen) >= want:
             break
@@ -315,7 +375,7 @@ def derive_pattern(rng, src, tree):
         parse_pattern(model)
     except SyntaxError:
         return None
-    return {"user": user, "model": model, "exact": exact, "kind": kind}
+    return {"user": user, "model": model, "exact": exact, "kind": "run-window" if run_leaves is not None else kind}
 
 
 # ----------------------------------------------------------------------------- rope driver
@@ -510,21 +570,64 @@ def _has_slice(n):
     return any(isinstance(x, ast.Slice) for x in ast.walk(n)) and isinstance(n, ast.Tuple)
 
 
-def text_substitute(user, texts, bare):
-    """own implementation of ${name} substitution (patterns generated here never hide ${} in strings)."""
+def cut_template(text):
+    """[(is_var, text)] -- the harness's own cutting of ${name}: occurrences inside a string literal or a
+    comment are literal text (rope's CodeTemplate skips them with a regex; this is a plain scanner; the code
+    generated here uses one-line '...' / "..." strings without escapes)."""
     out = []
-    i = 0
-    while i < len(user):
-        if user.startswith("${", i):
-            j = user.index("}", i)
-            w = user[i + 2:j]
-            if w not in texts:
-                return None
-            out.append(texts[w] if bare[w] else "(" + texts[w] + ")")
-            i = j + 1
-        else:
-            out.append(user[i])
+    lit = []
+    i, n = 0, len(text)
+    quote = None
+    comment = False
+    while i < n:
+        ch = text[i]
+        if comment:
+            if ch == "\n":
+                comment = False
+            lit.append(ch)
             i += 1
+        elif quote:
+            if ch == quote:
+                quote = None
+            lit.append(ch)
+            i += 1
+        elif ch in "'\"":
+            quote = ch
+            lit.append(ch)
+            i += 1
+        elif ch == "#":
+            comment = True
+            lit.append(ch)
+            i += 1
+        elif text.startswith("${", i):
+            m = re.match(r"\$\{([^}\s$]*)\}", text[i:])
+            if m:
+                if lit:
+                    out.append((False, "".join(lit)))
+                    lit = []
+                out.append((True, m.group(1)))
+                i += m.end()
+            else:
+                lit.append(ch)
+                i += 1
+        else:
+            lit.append(ch)
+            i += 1
+    if lit:
+        out.append((False, "".join(lit)))
+    return out
+
+
+def text_substitute(user, texts, bare):
+    """own positional substitution of the ${name} occurrences of a pattern (those outside strings/comments)"""
+    out = []
+    for is_var, t in cut_template(user):
+        if not is_var:
+            out.append(t)
+        elif t not in texts:
+            return None
+        else:
+            out.append(texts[t] if bare[t] else "(" + texts[t] + ")")
     return "".join(out)
 
 
@@ -748,8 +851,10 @@ def fixed_cases():
 
 def run(ctx):
     ctx.rule = ("matching: random modules (harness/c19_gen.py: 4-12 top-level statements over 5 names, sub-expressions "
-                "re-used from a per-module pool, layout variation); patterns = source of a random expression or window "
-                "of 1-3 statements of the module with 0-4 sub-expressions abstracted into wildcards (same wildcard for "
+                "re-used from a per-module pool, runs of 3-6 equal or unifiable consecutive statements also inside blocks, "
+                "string literals spelling ${name} of the wildcard names, layout variation); patterns = source of a random "
+                "expression or window of 1-3 statements of the module (2-3 statement windows inside a run with the differing "
+                "leaves as wildcards: chains of mutually overlapping instances) with 0-4 sub-expressions abstracted into wildcards (same wildcard for "
                 "equal code, sometimes for unequal code; ${?x} and `exact` wildcards), random region and skip region, "
                 "RawSimilarFinder or SimilarFinder; non-trivial = at least one match reported; distinct by "
                 "(source, pattern, driver, region, exact). restructuring: see coverage.restructure_rule")
